@@ -259,7 +259,170 @@ def extract_api_phases(E):
     E.t.append("/-- `Order.is_final`: statuses that are not final -/\ndef orderNonFinalStatuses : Option (List String) := %s" % ("some " + lean_strlist(sorted(nonfinal)) if nonfinal else "none"))
 
 
-EXTRACTORS = [extract_cost, extract_scheduler, extract_api_phases]
+def _contains(node, types):
+    return any(isinstance(n, types) for n in ast.walk(node))
+
+
+def _top_level_unconditional(func, pred):
+    """statements of `func`'s body (top level only) satisfying pred, with a flag: no return can precede them"""
+    out = []
+    may_return = False
+    for st in func.body:
+        if pred(st):
+            out.append((st, not may_return))
+        if _contains(st, ast.Return):
+            may_return = True
+    return out
+
+
+def _nested_matches(func, pred):
+    """statements satisfying pred anywhere below the top level of func's body (i.e. under if/for/while/try/with)"""
+    out = []
+    for st in func.body:
+        for n in ast.walk(st):
+            if n is not st and isinstance(n, ast.stmt) and pred(n):
+                out.append(n)
+    return out
+
+
+def _is_class_attr_assign(st):
+    return (isinstance(st, ast.Assign) and len(st.targets) == 1 and isinstance(st.targets[0], ast.Attribute)
+            and isinstance(st.targets[0].value, ast.Name) and st.targets[0].value.id[:1].isupper())
+
+
+def _reads_only(node, roots):
+    """every Name read in the expression is one of `roots` (the value is a function of the run's configuration only)"""
+    return all(n.id in roots for n in ast.walk(node) if isinstance(n, ast.Name))
+
+
+def extract_isolation(E):
+    """process-level state that outlives a run (C13): how each piece is re-initialised at the start of the next run"""
+    import glob
+    # 1. class-level attributes assigned in a mod's start_up
+    rows = []
+    exports = []
+    for path in sorted(glob.glob(os.path.join(REPO, "rqalpha", "mod", "*", "mod.py"))):
+        rel = os.path.relpath(path, REPO)
+        tree, src = parse(rel)
+        for cls in [n for n in tree.body if isinstance(n, ast.ClassDef)]:
+            f = find_func(cls, "start_up")
+            if f is None:
+                continue
+            cfg_arg = f.args.args[2].arg if len(f.args.args) > 2 else "mod_config"
+            env_arg = f.args.args[1].arg if len(f.args.args) > 1 else "env"
+            for st, uncond in _top_level_unconditional(f, _is_class_attr_assign):
+                t = st.targets[0]
+                rows.append(("%s.%s" % (t.value.id, t.attr), uncond, _reads_only(st.value, {cfg_arg, env_arg})))
+            for st in _nested_matches(f, _is_class_attr_assign):
+                t = st.targets[0]
+                rows.append(("%s.%s" % (t.value.id, t.attr), False, _reads_only(st.value, {cfg_arg, env_arg})))
+            for n in ast.walk(f):
+                if isinstance(n, ast.Call) and _decorator_name(n) == "export_as_api":
+                    nm = None
+                    for kw in n.keywords:
+                        if kw.arg == "name" and isinstance(kw.value, ast.Constant):
+                            nm = kw.value.value
+                    if nm is None and len(n.args) > 1 and isinstance(n.args[1], ast.Constant):
+                        nm = n.args[1].value
+                    if nm is None and n.args and isinstance(n.args[0], ast.Attribute):
+                        nm = n.args[0].attr
+                    if nm is None and n.args and isinstance(n.args[0], ast.Name):
+                        nm = n.args[0].id
+                    exports.append(nm or "?")
+    E.t.append("/-- class-level attributes assigned in a mod's `start_up`: (Class.attr, assigned unconditionally, value read from the run's configuration only) -/\n"
+               "def classSwitchWrites : List (String × Bool × Bool) := [\n" + ",\n".join('  ("%s", %s, %s)' % (a, str(b).lower(), str(c).lower()) for a, b, c in rows) + "]")
+    E.t.append("/-- names exported into `rqalpha.api` inside a mod's `start_up` (bound to per-run objects) -/\ndef perRunExports : List String := %s" % lean_strlist(sorted(exports)))
+    # 2. export_as_api / register_api rebind the global on every call
+    tree, src = parse("rqalpha/api.py")
+    flags = []
+    for fn in ("export_as_api", "register_api"):
+        f = find_func(tree, fn)
+        ok = False
+        if f is not None:
+            def is_rebind(st):
+                return (isinstance(st, ast.Assign) and isinstance(st.targets[0], ast.Subscript) and isinstance(st.targets[0].value, ast.Call)
+                        and isinstance(st.targets[0].value.func, ast.Name) and st.targets[0].value.func.id == "globals")
+            m = _top_level_unconditional(f, is_rebind)
+            ok = bool(m) and all(u for _, u in m)
+        flags.append((fn, ok))
+    E.t.append("/-- `rqalpha.api.%s` assign `globals()[name]` on every call (no early return, no guard) -/\ndef apiRebindsAlways : List (String × Bool) := [%s]"
+               % ("export_as_api/register_api", ", ".join('("%s", %s)' % (a, str(b).lower()) for a, b in flags)))
+    # 3. the instrument-type dispatcher: does it keep a data_proxy of an earlier run, and is its cache one of the resettable ones
+    tree, src = parse("rqalpha/utils/functools.py")
+    f = find_func(tree, "instype_singledispatch")
+    d = find_func(f, "dispatch") if f is not None else None
+    keeps = None
+    resettable = None
+    if d is not None:
+        keeps = _contains(d, ast.Nonlocal) or any(isinstance(n, ast.Global) for n in ast.walk(d))
+        resettable = any(_decorator_name(x) == "lru_cache" for x in d.decorator_list)
+        E.fp["instype_singledispatch"] = fingerprint(f)
+    cl = find_func(tree, "clear_all_cached_functions")
+    clears = cl is not None and any(isinstance(n, ast.Call) and isinstance(n.func, ast.Attribute) and n.func.attr == "cache_clear" for n in ast.walk(cl))
+    lw = find_func(tree, "lru_cache")
+    registers = lw is not None and any(isinstance(n, ast.Call) and isinstance(n.func, ast.Attribute) and n.func.attr == "append" for n in ast.walk(lw))
+    E.t.append("/-- `instype_singledispatch.dispatch` keeps state across calls through nonlocal/global variables (a captured data_proxy) -/\ndef dispatcherKeepsProxy : Option Bool := %s"
+               % ("none" if keeps is None else "some " + str(keeps).lower()))
+    E.t.append("/-- the dispatcher's cache is a resettable `rqalpha.utils.functools.lru_cache`, which registers itself, and `clear_all_cached_functions` clears every registered cache -/\n"
+               "def dispatcherCacheResettable : Bool := %s" % str(bool(resettable and clears and registers)).lower())
+    # 4. every run entry point clears the caches before main.run
+    tree, src = parse("rqalpha/__init__.py")
+    ent = []
+    for fn in ("run_file", "run_code", "run_func"):
+        f = find_func(tree, fn)
+        ok = False
+        if f is not None:
+            seen_clear = False
+            ok = True
+            found_run = False
+            for st in f.body:
+                calls = [_decorator_name(n) for n in ast.walk(st) if isinstance(n, ast.Call)]
+                if "clear_all_cached_functions" in calls and not isinstance(st, (ast.If, ast.For, ast.While, ast.Try)):
+                    seen_clear = True
+                if any(c in ("main.run", "run") for c in calls):
+                    found_run = True
+                    if not seen_clear:
+                        ok = False
+            ok = ok and found_run
+        ent.append((fn, ok))
+    E.t.append("/-- run entry points that clear all caches (unconditionally) before `main.run` -/\ndef runEntriesClearCaches : List (String × Bool) := [%s]"
+               % ", ".join('("%s", %s)' % (a, str(b).lower()) for a, b in ent))
+    # 5. the Environment singleton is replaced by every new Environment
+    tree, src = parse("rqalpha/environment.py")
+    cls = find_class(tree, "Environment")
+    f = find_func(cls, "__init__")
+
+    def is_env_assign(st):
+        return (isinstance(st, ast.Assign) and isinstance(st.targets[0], ast.Attribute) and isinstance(st.targets[0].value, ast.Name)
+                and st.targets[0].value.id == "Environment" and st.targets[0].attr == "_env" and isinstance(st.value, ast.Name) and st.value.id == "self")
+    m = _top_level_unconditional(f, is_env_assign) if f is not None else []
+    E.t.append("/-- `Environment.__init__` installs the new instance as the singleton unconditionally -/\ndef envSingletonReplaced : Bool := %s" % str(bool(m) and all(u for _, u in m)).lower())
+    # 6. caches that `clear_all_cached_functions` cannot reach: stdlib functools caches on module-level functions
+    bad = []
+    for path in sorted(glob.glob(os.path.join(REPO, "rqalpha", "**", "*.py"), recursive=True)):
+        rel = os.path.relpath(path, REPO)
+        if rel in ("rqalpha/utils/functools.py",) or "/cmds/" in rel or "/examples/" in rel or rel.startswith("rqalpha/data/bundle"):
+            continue
+        try:
+            tree, src = parse(rel)
+        except Exception:
+            continue
+        std = set()
+        for n in tree.body:
+            if isinstance(n, ast.ImportFrom) and n.module == "functools":
+                for a in n.names:
+                    if a.name in ("lru_cache", "cache"):
+                        std.add(a.asname or a.name)
+        for n in ast.walk(tree):
+            if isinstance(n, ast.FunctionDef):
+                for dcr in n.decorator_list:
+                    nm = _decorator_name(dcr)
+                    if nm in std or nm in ("functools.lru_cache", "functools.cache"):
+                        bad.append("%s:%s" % (rel, n.name))
+    E.t.append("/-- functions cached with the stdlib `functools.lru_cache`/`cache` directly (not reset between runs) -/\ndef unresettableCaches : List String := %s" % lean_strlist(bad))
+
+
+EXTRACTORS = [extract_cost, extract_scheduler, extract_api_phases, extract_isolation]
 
 
 def write_if_changed(path, text):
